@@ -22,16 +22,18 @@ theorem usable_call_bad (inp : Nat → Value) (parent : String) (fd : Nat) (hfd 
   have hs' : ((h.segsize : Nat) : Int) % 18446744073709551616 = h.segsize := by unfold TWO32 at hs; omega
   simp (config := { maxSteps := 8000000 }) [rs_eval, rs_code, Nat.add_assoc, h0, h1, h2, hfd', hfd0, hs',
     EmbedShm.sizes, headerValue, chkInt, HEADER_SIZE, RECORD_SIZE, openEvents2, evSys]
-  rcases checkHeader_error h e hc with ⟨hm, rfl⟩ | ⟨hm, hv, rfl⟩ | ⟨hm, hv, hg, rfl⟩ | ⟨hm, hv, hg, hz, rfl⟩
-  · have hm' : ¬ h.magic0 = 1095588430 ∨ ¬ h.magic1 = 1128399360 := by
-      unfold MAGIC0 MAGIC1 at hm; by_cases h.magic0 = 1095588430 <;> simp_all
-    simp [hm', shmErrValue]
-  · have hm' : ¬ (¬ h.magic0 = 1095588430 ∨ ¬ h.magic1 = 1128399360) := by unfold MAGIC0 MAGIC1 at hm; simp [hm.1, hm.2]
-    simp [hm', hv, shmErrValue]
-  · have hm' : ¬ (¬ h.magic0 = 1095588430 ∨ ¬ h.magic1 = 1128399360) := by unfold MAGIC0 MAGIC1 at hm; simp [hm.1, hm.2]
-    simp [hm', hv, hg, shmErrValue]
-  · have hm' : ¬ (¬ h.magic0 = 1095588430 ∨ ¬ h.magic1 = 1128399360) := by unfold MAGIC0 MAGIC1 at hm; simp [hm.1, hm.2]
-    unfold HEADER_SIZE at hz
-    simp [hm', hv, hg, hz, shmErrValue]
+  -- whatever shape the decision tree has (nested `if`s, `&&`, `||`, early returns): decide it with the reason
+  -- `checkHeader` refuses the header for
+  rcases checkHeader_error h e hc with ⟨hm, rfl⟩ | ⟨⟨hm0, hm1⟩, hv, rfl⟩ | ⟨⟨hm0, hm1⟩, hv, hg, rfl⟩ |
+    ⟨⟨hm0, hm1⟩, hv, hg, hz, rfl⟩
+  · unfold MAGIC0 MAGIC1 at hm
+    by_cases hm0 : h.magic0 = 1095588430 <;> simp_all [shmErrValue]
+  · unfold MAGIC0 at hm0; unfold MAGIC1 at hm1
+    simp_all [shmErrValue]
+  · unfold MAGIC0 at hm0; unfold MAGIC1 at hm1
+    simp_all [shmErrValue]
+  · unfold MAGIC0 at hm0; unfold MAGIC1 at hm1; unfold HEADER_SIZE at hz
+    have hz2 : ¬ (16 ≤ h.segsize) := by omega
+    simp_all [shmErrValue]
 
 end ClockBound.Rs.WriterNewProof
